@@ -272,7 +272,7 @@ def pipeline(variant='median', cap=30, block=(), with_validation=True):
     from pandora.state_machine import PandoraMachine
     col = Collector(cap_s=cap)
     info = {}
-    ROWS, COLS = 40, 50
+    ROWS, COLS = (40, 50) if variant != 'bilateral' else (40, 12)       # bilateral: fewer columns than rows and than int(3 sigma + 1)
 
     def h():
         B = 1 << 31
@@ -314,6 +314,18 @@ def pipeline(variant='median', cap=30, block=(), with_validation=True):
         # the user's dictionary is never mutated (accepted or not)
         unchanged = list(pipe) == list(snapshot) and all(list(pipe[k]) == list(snapshot[k]) and all(pipe[k][p] is snapshot[k][p] for p in snapshot[k]) for k in snapshot)
         props.append(("user-dictionary-not-mutated", z3.BoolVal(bool(unchanged))))
+        # the same through the machine API (library / notebook use), with optional parameters omitted in every step
+        user2 = {"pipeline": {"matching_cost": {"matching_cost_method": "census"}, "disparity": {"disparity_method": "wta"},
+                              "filter": {"filter_method": "median"}, "refinement": {"refinement_method": "vfit"}, "filter.1": {"filter_method": "bilateral"}}}
+        snap2 = copy.deepcopy(user2)
+        try:
+            PandoraMachine().check_conf(user2, Img(ROWS, COLS), Img(ROWS, COLS, disparity_source=None, has_disp=False))
+            ok2 = (user2 == snap2 and [list(v) for v in user2["pipeline"].values()] == [list(v) for v in snap2["pipeline"].values()])
+        except S.Unsupported:
+            raise
+        except Exception:      # noqa
+            ok2 = False
+        props.append(("machine-api-check-does-not-mutate-the-user-dictionary", z3.BoolVal(bool(ok2))))
         if accepted:
             op = out["pipeline"]
             props.append(("steps-keep-their-order", z3.BoolVal(list(op) == list(pipe))))
@@ -410,7 +422,7 @@ def replay_pipeline(cex):
         pipe["filter"] = {"filter_method": "bilateral", "sigma_space": sg}
         inside = inside and sg > 0
         if sg > 0 and sg == sg and sg < 1e6:
-            non = {"filter": min(40, 50, int(3 * sg + 1))}
+            non = {"filter": min(40, 12, int(3 * sg + 1))}
     elif x['variant'] == 'cbca':
         it, ds = v.get('cbca_intensity', 30.0), v.get('cbca_distance', 5)
         pipe = {"matching_cost": pipe["matching_cost"], "aggregation": {"aggregation_method": "cbca", "cbca_intensity": it, "cbca_distance": ds},
@@ -419,8 +431,18 @@ def replay_pipeline(cex):
     if x['with_validation']:
         pipe["validation"] = {"validation_method": "cross_checking_accurate", "cross_checking_threshold": v.get('cross_checking_threshold', 1.0)}
     user = {"pipeline": pipe}; snap = copy.deepcopy(user)
-    m = PandoraMachine(); L, R = Img(40, 50), Img(40, 50, disparity_source=None, has_disp=False)
+    RC = (40, 50) if x['variant'] != 'bilateral' else (40, 12)
+    m = PandoraMachine(); L, R = Img(*RC), Img(*RC, disparity_source=None, has_disp=False)
     bad = []
+    user2 = {"pipeline": {"matching_cost": {"matching_cost_method": "census"}, "disparity": {"disparity_method": "wta"},
+                          "filter": {"filter_method": "median"}, "refinement": {"refinement_method": "vfit"}, "filter.1": {"filter_method": "bilateral"}}}
+    snap2 = copy.deepcopy(user2)
+    try:
+        PandoraMachine().check_conf(user2, Img(*RC), Img(*RC, disparity_source=None, has_disp=False))
+        if repr(user2) != repr(snap2):
+            bad.append('PandoraMachine.check_conf mutated the user dictionary: %s -> %s' % (snap2, user2))
+    except Exception as e:      # noqa
+        bad.append('PandoraMachine.check_conf raised %r on a legal pipeline with omitted optional parameters' % (e,))
     try:
         out = CC.check_pipeline_section(user, L, R, m); acc = True
     except Exception as e:      # noqa
